@@ -44,7 +44,7 @@ def run(ctx):
         if line.startswith("spec "):
             _, cid, rest = line.rstrip("\n").split(" ", 2)
             specs[cid] = rest
-        elif line.startswith("L ") or line.startswith("D "):
+        elif line.startswith("L ") or line.startswith("D ") or line.startswith("E "):
             flines[line.split(" ", 2)[1]] = line.rstrip("\n")
     rc, mout = sh("%s < %s" % (driver, ops), timeout=3000)
     rc2, cout = sh([cunit, ops], timeout=3000)
@@ -56,6 +56,7 @@ def run(ctx):
             impl_f[line.split(" ", 1)[0]] = line
     f_cmp = f_bad = f_states = 0
     f_viol = []
+    e16 = []
     evals = judge_bad = 0
     distinct = set()
     samples = []
@@ -65,6 +66,13 @@ def run(ctx):
         if not line.strip():
             continue
         cid, kv = parse_kv_line(line)
+        if cid in flines and flines[cid].startswith("E "):
+            # UTF-16 decoder: the model prints the decoder as it should be (dec16) and as unicode.h has it (asis);
+            # which one /repo has is decided behaviourally on the lines where the two differ
+            f_cmp += 1
+            im = (impl_f.get(cid) or "").split("dec16=")[-1]
+            e16.append((cid, kv.get("dec16"), kv.get("asis"), im))
+            continue
         if cid in flines:
             f_cmp += 1
             f_states += line.count(";") + 1
@@ -96,6 +104,17 @@ def run(ctx):
             ctx.violation("judge", "C09: the tree of drive `%s` differs from the canonical drive's: %s" % (sp.split(" ")[-1][:60], kv["eq"][:300]),
                           {"case": cid, "spec": sp, "result": kv},
                           fingerprint={"kind": kind, "cause": cause})
+    nF = sum(1 for _, a, b, im in e16 if a != b and im == a)
+    nA = sum(1 for _, a, b, im in e16 if a != b and im == b)
+    u16_variant = "asis" if nA > nF else "fixed"
+    ctx.coverage["utf16_decoder_variant"] = {"chosen": u16_variant, "distinguishing_lines": nF + nA, "fixed_wins": nF, "asis_wins": nA}
+    for cid, a, b, im in e16:
+        want = b if u16_variant == "asis" else a
+        if im != want:
+            f_bad += 1
+            if len(f_viol) < 3:
+                f_viol.append({"case": cid, "line": flines[cid], "model": want, "impl": im,
+                               "correspondence": "TsVerif.Utf.decodeUtf16 vs lib/src/unicode.h ts_decode_utf16_le/_be"})
     for pl in f_viol:
         ctx.violation("corr", "Lean lexer/decoder port and the C code disagree on a scripted run", pl,
                       fingerprint={"level": "function"}, found_input=False)
